@@ -8,7 +8,8 @@ export PYVC_REPO=$S/repo
 rsync -a --exclude .git --exclude .venv --exclude .tmp --exclude replays /verif/ $S/verif/
 ln -s /verif/.venv $S/verif/.venv; mkdir -p $S/verif/.tmp $S/verif/replays
 cd $S/verif
-for p in C01 C02 C03 C04 C05 C06 C07 C08 C09 C10 C11 C12 C13 C14 C15 C16 C17 C18 C19 C20; do
+# PROPS="C11 C12": these properties only (two halves can run side by side, each in its own scratch copy)
+for p in ${PROPS:-C01 C02 C03 C04 C05 C06 C07 C08 C09 C10 C11 C12 C13 C14 C15 C16 C17 C18 C19 C20}; do
   ./check $p --tier thorough > $S/out.$p 2>&1; rc=$?
   grep -a -E "^VIOLATION|^UNDECIDED|CRASH|UNSOUND|tier=" $S/out.$p | cut -c1-220
   echo "  exit=$rc for $p"
